@@ -684,7 +684,10 @@ def run(ctx: Ctx) -> Outcome:
         if n > 3:
             out.notes.append("%d further instances of %s not listed" % (n - 3, sig))
     for fam in live:
-        if not fam["records"]:
+        for err in fam["errors"][:1]:  # with links working, the stateful phase on these families raises nothing
+            emit("C10:live:engine-error:%s" % re.sub(r"\W.*", "", err), "stateful phase on family %s reported an internal error: %s" % (fam["family"], err),
+                 {"kind": "live-error", "family": fam["family"]})
+        if not fam["records"] and not fam["errors"]:
             raise tlc.TLCFailure("live family %s produced no link-derived request (errors: %s)" % (fam["family"], fam["errors"][:2]))
 
     kinds: dict[str, int] = {}
@@ -753,6 +756,10 @@ def replay(ctx: Ctx, data: dict) -> Outcome:
             out.violations.append(Violation("C10:status:followed-from-non-matching:key=%s" % (
                 "default" if data["key"] == "default" else "NXX" if "X" in data["key"].upper() else "exact"),
                 "statuses %s" % sorted(set(m) - set(data["expected"]))[:8], data))
+    elif kind == "live-error":
+        for f in run_live(data["family"], FAMILIES[data["family"]], ctx.seed + 1, 6):
+            for err in f["errors"][:1]:
+                out.violations.append(Violation("C10:live:engine-error:%s" % re.sub(r"\W.*", "", err), err, data))
     elif kind == "live":
         fam = data["family"]
         recs = [r for f in run_live(fam, FAMILIES[fam], ctx.seed + 1, 6) for r in f["records"]]
